@@ -35,3 +35,36 @@ func VHarnessDLEQWallet() {
 	v.Assert(!VerifyBlindSignatureDLEQ(dleq, A2, Bhex, Chex), "C10 the same proof does not verify under a different published key (hash collision free: assumed)")
 	v.Reach("done")
 }
+
+func vhDLEQProof(tag string, k *secp256k1.PrivateKey, amount uint64) cashu.Proof {
+	r := v.Priv(tag + ".r")
+	secret := v.Str(tag + ".secret")
+	B_, _, err := crypto.BlindMessage(secret, r)
+	v.Assume(err == nil)
+	C_ := crypto.SignBlindedMessage(B_, k)
+	e, s := crypto.GenerateDLEQ(k, B_, C_)
+	C := crypto.UnblindSignature(C_, r, k.PubKey())
+	return cashu.Proof{Amount: amount, Secret: secret, C: hex.EncodeToString(C.SerializeCompressed()),
+		DLEQ: &cashu.DLEQProof{E: hex.EncodeToString(e.Serialize()), S: hex.EncodeToString(s.Serialize()), R: hex.EncodeToString(r.Serialize())}}
+}
+
+// C10: the token-level check a receiving wallet runs (VerifyProofsDLEQ): honest proofs of a two-key keyset are accepted,
+// and changing the amount of one proof - to the other key's amount or to any amount the keyset has no key for - is detected.
+func VHarnessDLEQToken() {
+	k1, k2 := v.Priv("k1"), v.Priv("k2")
+	v.Assume(v.Not(v.SamePriv(k1, k2)))
+	ks := crypto.WalletKeyset{PublicKeys: map[uint64]*secp256k1.PublicKey{1: k1.PubKey(), 2: k2.PubKey()}}
+	p1 := vhDLEQProof("p1", k1, 1)
+	p2 := vhDLEQProof("p2", k2, 2)
+	v.Assert(VerifyProofsDLEQ(cashu.Proofs{p1, p2}, ks), "C10 a token of honest proofs carrying DLEQ data is accepted")
+	amt := v.U64("tampered.amount")
+	v.Assume(amt != 2)
+	which := v.Int("tampered.position", 0, 1)
+	p2.Amount = amt
+	tok := cashu.Proofs{p1, p2}
+	if which == 0 {
+		tok = cashu.Proofs{p2, p1}
+	}
+	v.Assert(!VerifyProofsDLEQ(tok, ks), "C10 a token in which the amount of a proof carrying DLEQ data was changed is rejected (other key's amount, or no key at all)")
+	v.Reach("token")
+}
